@@ -97,9 +97,11 @@ deriving Repr, DecidableEq
     `pce`: the next shared operation of a `poll_connection_error` call; `det e`: the driver
     detects `e` itself (`handle_connection_error e`); `park`: the poll returns `Pending`;
     `bidi r`: the end of a poll of client `poll_close`, whose `poll_accept_bi` is `Ready` — with the
-    transport's error (`some q`) or with a server-initiated stream (`none`), see `clientTail`. -/
+    transport's error (`some q`) or with a server-initiated stream (`none`), see `clientTail`;
+    `shut`: a `shutdown()` call, as far as the error state is concerned — its first statement
+    `check_connection_error()?` (see `checkErr`), made while the driver is not inside a poll. -/
 inductive DOp where
-  | poll | pce | det (e : Err) | park | bidi (r : Option QErr)
+  | poll | pce | det (e : Err) | park | bidi (r : Option QErr) | shut
 deriving Repr, DecidableEq
 
 /-- A schedule entry: the driver (with its next call) or the next step of stream handle `i`. -/
@@ -160,6 +162,20 @@ def clientTail (s : State) (r : Option QErr) : State :=
     | none => s
   detect s1 clientBidiErr
 
+/-- `ConnectionInner::check_connection_error` — what `shutdown` starts with since the repair of
+    D-05s: the check `poll_connection_error` makes, without registering a waker.  The handled error
+    if there is one; otherwise the cell's error, acted on (`close_if_needed`,
+    `convert_to_connection_error`) as a driver poll would; otherwise `Ok(())`: nothing changes.
+    A call that reports is a driver call that has met the error: the driver is no longer `parked`
+    (its last call did not answer `Pending`). -/
+def checkErr (s : State) : State :=
+  match s.handled with
+  | some h => { retHandled s h with parked := false }
+  | none =>
+    match s.cell with
+    | some e => { observe s e with parked := false }
+    | none => s
+
 def dstep (registerFirst : Bool) (s : State) : DOp → State
   | .poll =>
     match s.pc with
@@ -184,6 +200,10 @@ def dstep (registerFirst : Bool) (s : State) : DOp → State
     match s.pc with
     | .started => clientTail s r
     | .armed => clientTail s r
+    | _ => s
+  | .shut =>
+    match s.pc with
+    | .idle => checkErr s
     | _ => s
 
 /-- `set_conn_error` (`get_or_init`): first half of `set_conn_error_and_wake`. -/
